@@ -568,7 +568,26 @@ def option_table_form(run, prog, main, ex, lt, cands, chain):
         else:
             run.ok("C19.X3", "--%s is stored into settings.%s" % (name, fld), where(st), "table entry")
         consumed.add(name)
-    return {"settings_local": sel[0], "consumed": consumed, "call_bids": {bid}}
+    # the Err of `apply` (the value does not parse) must end the run with a failure status
+    cfg = prog.cfg(main)
+    handled = False
+    for blk in b["blocks"]:
+        sw = blk["term"]
+        if sw["k"] != "switch":
+            continue
+        c = strip(ex.operand(sw["on"]))
+        if c[0] == "discr" and strip(c[1])[0] == "call" and len(strip(c[1])) > 3 and strip(c[1])[3] == bid:
+            errs = [sw["targets"][i] for i, v in enumerate(sw["values"]) if v == 1] or ([sw["targets"][-1]] if 1 not in sw["values"] else [])
+            oks = [sw["targets"][i] for i, v in enumerate(sw["values"]) if v == 0] or ([sw["targets"][-1]] if 0 not in sw["values"] else [])
+            if errs and oks and errs[0] != oks[0]:
+                only_err = cfg.reachable_from(errs[0], removed=[blk["id"]]) - cfg.reachable_from(oks[0], removed=[blk["id"]])
+                # every way out of the error arm is a non-zero exit: the arm's blocks never rejoin the success path
+                exits_ = [rb for rb in only_err if isinstance(exit_status(b["blocks"][rb]["term"]), int) and exit_status(b["blocks"][rb]["term"]) != 0]
+                rejoin = [rb for rb in only_err for s_ in cfg.succ.get(rb, []) if s_ not in only_err]
+                handled = bool(exits_) and not rejoin
+    if not handled:
+        run.bad("C19.X3", "option-table-error-dropped", where(t), "the Err returned by the option table's apply function (illegal option value) does not end the run with a non-zero exit status")
+    return {"settings_local": sel[0], "consumed": consumed, "call_bids": {bid} if handled else set()}
 
 
 LOSSY_NAME = re.compile(r"Path(Buf)?::(set_extension|with_extension|set_file_name|with_file_name|pop|file_prefix)$|"
